@@ -635,11 +635,222 @@ def observe(item):
             return run_family(item, A, vs, kd, Ks, wants, etol_rel, True, list(range(1, n + kf.EXTRA + 1)), Xs=Xs)
         if item["src"] == "struct":
             return observe_struct(item)
+        if item["src"] == "twoscale":
+            return observe_twoscale(item)
+        if item["src"] == "loose":
+            v, t, (k, ns) = observe_loose(item)
+            for tr in t[:1]:
+                tr["tolstops"] = ns
+            return v, t, k
         return observe_random(item)
     except Exception as ex:  # noqa: BLE001
         info = common.exc_info(ex)
         return [Violation(PROP, "exception", item["name"], {"exc": info["exc"], "source": item["src"], "dtype": item["dt"]},
                           f"driver: {info['exc']}: {info['msg']} @ {info['where']}", replay=item)], [], 0
+
+
+def _blocks2(B1, B2, c1, c2, couple=0.0):
+    n1, n2 = len(B1), len(B2)
+    A = np.zeros((n1 + n2, n1 + n2), dtype=np.complex128)
+    A[:n1, :n1] = c1 * np.asarray(B1, dtype=np.complex128)
+    A[n1:, n1:] = c2 * np.asarray(B2, dtype=np.complex128)
+    if couple:
+        A[n1, n1 - 1] = couple      # weak one-way coupling of the first block into the second
+    return A
+
+
+TS_BLOCKS = {
+    "herm-nn": ([[2, 1, 0], [1, 3, 1], [0, 1, 4]], [[1, 2, 0], [0, 1, 3], [1, 0, 2]]),
+    "nn-nn": ([[0, 1, 2], [-1, 0, 1], [1, 1, 1]], [[2, 0, 1], [1, 1, 0], [0, 3, 1]]),
+    "cplx": ([[1, 1j, 0], [-1j, 0, 2], [0, 2, -1]], [[1, 2j, 0], [0, 1, 1], [1j, 0, 2]]),
+}
+
+
+def observe_twoscale(item):
+    """Batched start vectors living on blocks of very different scale: A = diag(c1*B1, c2*B2), one start vector
+    supported on each block (KDim = 3 each: the blocks are non-derogatory, the starts generic).  Every member of the
+    batched run must equal its own single-vector run (steps, Q, H - H relative to the MEMBER's scale max|H_b|, not to
+    ||A||), have orthonormal leading columns and satisfy the Arnoldi relation relative to its own scale."""
+    import cola
+    dt, tol = item["dt"], item["tol"]
+    npd = kf.NPDT[dt]
+    rt, eps = kf.tol_of(dt)
+    B1, B2 = TS_BLOCKS[item["blocks"]]
+    A = _blocks2(B1, B2, item["c1"], item["c2"])
+    if not np.issubdtype(npd, np.complexfloating):
+        A = np.real(A)
+    A_t = A.astype(npd)
+    A_op = cola.ops.Dense(A_t)
+    n = 6
+    vs = [np.array([1, 2, -1, 0, 0, 0], dtype=npd), np.array([0, 0, 0, 2, 1, 1], dtype=npd)]
+    if item.get("swap"):
+        vs = vs[::-1]
+    # KDim of each member: rank of its (small-integer) Krylov matrix on the unscaled blocks
+    A0 = _blocks2(B1, B2, 1.0, 1.0)
+    kds = []
+    for v in vs:
+        K = [v.astype(np.complex128)]
+        for _ in range(5):
+            K.append(A0 @ K[-1])
+        kds.append(int(np.linalg.matrix_rank(np.array(K).T)))
+    viol, traces, nchk = [], [], 0
+    for m in item["ms"]:
+        if item.get("only_m") is not None and m != item["only_m"]:
+            continue
+        try:
+            tag = f"{item['name']}|{dt}|{m}"
+            V = np.stack(vs, axis=1)
+            Q, H, _, tr = call_arnoldi(A_op, V, m, tol, n, tag + "|batched")
+            traces += tr
+            QA, HA = np.asarray(Q.A).astype(np.complex128), np.asarray(H.A).astype(np.complex128)
+            nchk += 1
+            for b, v in enumerate(vs):
+                Q1, H1, _, tr1 = call_arnoldi(A_op, v, m, tol, n, tag + f"|single{b}")
+                traces += tr1
+                nchk += 1
+                Qs, Hs = np.asarray(Q1.to_dense()).astype(np.complex128), np.asarray(H1.to_dense()).astype(np.complex128)
+                msgs = []
+                if not (np.all(np.isfinite(QA[b])) and np.all(np.isfinite(HA[b]))):
+                    msgs.append(("finite", "non-finite entries in the member's outputs", {}))
+                elif QA[b].shape != Qs.shape or HA[b].shape != Hs.shape:
+                    msgs.append(("shape", f"member {QA[b].shape} {HA[b].shape}, single run {Qs.shape} {Hs.shape}", {}))
+                else:
+                    sb = max(float(np.abs(Hs).max(initial=0.0)), 1e-300)        # the member's own scale
+                    lead = min(m + 1, kds[b], Qs.shape[1])
+                    hl = min(m, kds[b])
+                    dq = float(np.abs(QA[b][:, :lead] - Qs[:, :lead]).max())
+                    dh = float(np.abs(HA[b][:lead + 1, :hl] - Hs[:lead + 1, :hl]).max(initial=0.0))
+                    if dq > rt or dh > rt * sb:
+                        msgs.append(("batched_vs_single", f"member {b} (own scale {kf.fmt(sb)}, ||A|| = "
+                                     f"{kf.fmt(np.abs(A_t).sum(1).max())}): leading {lead} columns of Q differ from its "
+                                     f"single-vector run by {kf.fmt(dq)}, H by {kf.fmt(dh)}", {"which": "factorisation"}))
+                    G = QA[b][:, :lead].conj().T @ QA[b][:, :lead]
+                    d = float(np.abs(G - np.eye(lead)).max())
+                    if d > rt:
+                        msgs.append(("orthonormal", f"member {b}: max|Q^H Q - I| = {kf.fmt(d)} on its first {lead} columns",
+                                     {"trailing_only": False, "onset": "other"}))
+                    R = A_t.astype(np.complex128) @ QA[b][:, :hl] - QA[b] @ HA[b][:, :hl]
+                    d = float(np.abs(R).max(initial=0.0))
+                    if d > rt * sb:
+                        msgs.append(("relation", f"member {b}: max|A Q[:, :{hl}] - Q H[:, :{hl}]| = {kf.fmt(d)} relative to its "
+                                     f"own scale {kf.fmt(sb)}", {"which": "member_scale"}))
+                for cl, de, ex in msgs:
+                    ex = dict(ex, element=b, scale_ratio=float(item["c1"] / item["c2"]), uniform_kdim=True)
+                    viol.append(mk_viol(item, cl, de, m, ex, n, kds[b], True, "arnoldi", dt, tol))
+        except Exception as ex:  # noqa: BLE001
+            info = common.exc_info(ex)
+            viol.append(mk_viol(item, "exception", f"{info['exc']}: {info['msg']} @ {info['where']}", m,
+                                {"exc": info["exc"]}, n, 3, True, "arnoldi", dt, tol))
+    return viol, traces, nchk
+
+
+def loose_matrix(item):
+    if item["kind"] == "coupled":
+        B1, B2 = TS_BLOCKS[item["blocks"]]
+        A = _blocks2(B1, B2, 1.0, 1.0, couple=item["couple"])
+        v = np.array([1, 2, -1, 0, 0, 0], dtype=np.complex128)
+        vs = [v, np.array([2, 0, 1, 0, 0, 0], dtype=np.complex128)]
+    else:
+        rng = np.random.RandomState(item["seed"])
+        A, _, _ = kf.general_case(rng, item["n"], item["kind"], item["cplx"])
+        vs = [rng.randn(item["n"]) + (1j * rng.randn(item["n"]) if item["cplx"] else 0) for _ in range(2)]
+    return A, vs
+
+
+def observe_loose(item):
+    """Runs that stop on the tolerance test with a LOOSE tolerance (non-normal operators, weakly coupled blocks or
+    random): every recorded sub-diagonal entry is the true residual norm, H[k+1, k] = ||A q_k - sum_i h_ik q_i||
+    recomputed independently in complex128 - also for the last step, whose basis column is dropped (zero) when the
+    residual is below tol * ||A q_1||; the relation holds on every column whose successor is kept."""
+    import cola
+    dt, tol = item["dt"], item["tol"]
+    npd = kf.NPDT[dt]
+    rt, eps = kf.tol_of(dt)
+    A, vs = loose_matrix(item)
+    if not np.issubdtype(npd, np.complexfloating):
+        A, vs = np.real(A), [np.real(x) for x in vs]
+    A_t = A.astype(npd)
+    Ac = A_t.astype(np.complex128)
+    sA = max(float(np.abs(A_t).sum(1).max()), 1e-300)
+    A_op = cola.ops.Dense(A_t)
+    n = A.shape[0]
+    viol, traces, nchk, nstop = [], [], 0, 0
+    batched = bool(item.get("batched"))
+    for m in item["ms"]:
+        if item.get("only_m") is not None and m != item["only_m"]:
+            continue
+        try:
+            tag = f"{item['name']}|{dt}|{m}"
+            V = np.stack([x.astype(npd) for x in vs], axis=1) if batched else vs[0].astype(npd)
+            Q, H, _, tr = call_arnoldi(A_op, V, m, tol, n, tag + ("|batched" if batched else ""))
+            traces += tr
+            nchk += 1
+            steps = tr[0]["fin"]["steps"] if len(tr) == 1 else None
+            QA = np.asarray(Q.A if batched else Q.to_dense()).astype(np.complex128)
+            HA = np.asarray(H.A if batched else H.to_dense()).astype(np.complex128)
+            if not batched:
+                QA, HA = QA[None], HA[None]
+            for b in range(QA.shape[0]):
+                Qb, Hb = QA[b], HA[b]
+                if not (np.all(np.isfinite(Qb)) and np.all(np.isfinite(Hb))):
+                    viol.append(mk_viol(item, "finite", "non-finite entries in Q or H", m, {"element": b}, n, None, batched,
+                                        "arnoldi", dt, tol))
+                    continue
+                s_obs = steps if steps is not None else steps_observed(Hb)
+                s_obs = min(s_obs, Hb.shape[1])
+                stopped = s_obs < min(m, n)
+                nstop += int(stopped)
+                for k in range(s_obs):
+                    if np.abs(Qb[:, k]).max() == 0:      # the member was exhausted earlier (batched)
+                        break
+                    r = Ac @ Qb[:, k] - Qb[:, :k + 1] @ Hb[:k + 1, k]
+                    rn = float(np.linalg.norm(r))
+                    d = abs(Hb[k + 1, k] - rn)
+                    kept = np.abs(Qb[:, k + 1]).max() > 0
+                    if d > rt * sA or abs(Hb[k + 1, k].imag) > 0:
+                        viol.append(mk_viol(item, "subdiag_residual", f"H[{k + 1},{k}] = {kf.fmt(abs(Hb[k + 1, k]))} but the "
+                                            f"residual ||A q_{k} - sum h_i{k} q_i|| = {kf.fmt(rn)} (column {k + 1} of Q "
+                                            f"{'kept' if kept else 'dropped'}; {s_obs} steps, stop on tolerance: {stopped})",
+                                            m, {"element": b, "last_step": k == s_obs - 1, "column_kept": bool(kept),
+                                                "tolerance_stop": bool(stopped)}, n, None, batched, "arnoldi", dt, tol))
+                        break
+                    if kept:
+                        d = float(np.abs(r - Hb[k + 1, k] * Qb[:, k + 1]).max())
+                        if d > rt * sA:
+                            viol.append(mk_viol(item, "relation", f"column {k}: |A q - Q h| = {kf.fmt(d)} (||A||={kf.fmt(sA)})",
+                                                m, {"which": "steps", "element": b}, n, None, batched, "arnoldi", dt, tol))
+                            break
+        except Exception as ex:  # noqa: BLE001
+            info = common.exc_info(ex)
+            viol.append(mk_viol(item, "exception", f"{info['exc']}: {info['msg']} @ {info['where']}", m,
+                                {"exc": info["exc"]}, n, None, batched, "arnoldi", dt, tol))
+    return viol, traces, (nchk, nstop)
+
+
+def plan_round4(quick):
+    items = []
+    for blocks in TS_BLOCKS:
+        for c1, c2 in ((1e9, 1.0), (1.0, 1e9), (1e-9, 1.0), (1.0, 1e-9)):
+            for dt in (["c128", "c64"] if blocks == "cplx" else ["f64", "f32", "c128"]):
+                tol = 1e-7 if dt in ("f64", "c128") else 1e-3
+                items.append({"src": "twoscale", "name": f"twoscale-{blocks}-{c1:g}-{c2:g}", "blocks": blocks, "c1": c1,
+                              "c2": c2, "dt": dt, "tol": tol, "ms": [1, 2, 3, 4, 6, 8], "swap": c1 < c2 and blocks == "nn-nn"})
+    k = 0
+    for tol, couple in ((0.3, 0.2), (0.1, 0.05), (1e-2, 5e-3)):
+        for blocks in TS_BLOCKS:
+            for dt in (["c128", "c64"] if blocks == "cplx" else ["f64", "f32"]):
+                for batched in (False, True):
+                    items.append({"src": "loose", "name": f"loose-coupled-{blocks}-{couple:g}", "kind": "coupled",
+                                  "blocks": blocks, "couple": couple, "dt": dt, "tol": tol, "ms": [2, 3, 4, 6, 9],
+                                  "batched": batched})
+        for n in ((8, 13) if quick else (5, 8, 13, 30)):
+            for kind, cplx in (("nonnormal", False), ("dense", True), ("nonnormal", True)):
+                k += 1
+                dt = ("c128", "c64")[k % 2] if cplx else ("f64", "f32")[k % 2]
+                items.append({"src": "loose", "name": f"loose-rand-{kind}-{'c' if cplx else 'r'}-n{n}", "kind": kind,
+                              "cplx": cplx, "n": n, "seed": 4100 + k, "dt": dt, "tol": tol, "ms": [n // 2, n, n + 3],
+                              "batched": k % 3 == 0})
+    return items
 
 
 def observe_struct(item):
@@ -910,7 +1121,7 @@ def plan_scaled(items, quick):
 
 def plan(cs, tier, seed):
     items = plan_unscaled(cs, tier, seed)
-    return items + plan_scaled(items, tier == "quick") + plan_start(items, tier == "quick")
+    return items + plan_scaled(items, tier == "quick") + plan_start(items, tier == "quick") + plan_round4(tier == "quick")
 
 
 def plan_unscaled(cs, tier, seed):
@@ -1069,6 +1280,9 @@ def _run(tier, t0, proof):
                                             (len(it.get("cases", [])) > 1 or it.get("batch", 1) > 1
                                              or len(it.get("starts", [])) > 1)]),
         "tlc_start_scale_invariant_cases": stats.get("start_scale_invariant_cases"),
+        "twoscale_batched_items": len([it for it in items if it["src"] == "twoscale"]),
+        "loose_tolerance_items": len([it for it in items if it["src"] == "loose"]),
+        "loose_tolerance_stops_observed": sum(t.get("tolstops", 0) for t in traces),
         "scaled_items": len([it for it in items if it.get("op_scale")]),
         "scaled_items_by_scale": {f"{c:g}": len([it for it in items if it.get("op_scale") == c]) for c in kf.SCALES},
         "scaled_items_batched": len([it for it in items if it.get("op_scale") and (len(it.get("cases", [])) > 1
